@@ -9,6 +9,7 @@ import (
 	"fmt"
 	"sync"
 	"sync/atomic"
+	"time"
 
 	"verifharness/simnet"
 )
@@ -73,6 +74,11 @@ type Script struct {
 	// InitHook is called at the start of Init (the orchestrator is then between creating the protocol instance and registering
 	// the session's handlers): lets a harness park the set-up of a session there
 	InitHook func(node uint16)
+	// LingerOnMsg > 0: the OnMsg call that completes the session's last round returns only after the protocol call (KeyGen / Sign)
+	// of this backend has returned (bounded by this duration), plus a moment for the orchestrator's own call to return. A protocol
+	// library that hands a message to its state machine synchronously behaves like this; it widens the window between the
+	// hand-over of a party's last message and whatever the orchestrator does after the hand-over.
+	LingerOnMsg time.Duration
 }
 
 func (s Script) transmits(pid uint16) bool { return s.Transmit == nil || s.Transmit[pid] }
@@ -150,7 +156,17 @@ func (b *Backend) OnMsg(m []byte, from uint16, bcast bool) {
 		b.got[fmt.Sprintf("%c/%d/%d", p.Kind, p.Round, from)]++
 	}
 	b.cond.Broadcast()
+	last := len(b.Script.Rounds) > 0 && b.inited && b.roundComplete(b.Script.Rounds[len(b.Script.Rounds)-1])
 	b.mu.Unlock()
+	if d := b.Script.LingerOnMsg; d > 0 && last && !b.Script.Hold {
+		deadline := time.Now().Add(d)
+		for time.Now().Before(deadline) && atomic.LoadInt32(&b.state) != StDone {
+			time.Sleep(20 * time.Microsecond)
+		}
+		if atomic.LoadInt32(&b.state) == StDone {
+			time.Sleep(400 * time.Microsecond)
+		}
+	}
 }
 
 func (b *Backend) emit(p Payload, bcast bool, to uint16, filler int) {
